@@ -289,7 +289,9 @@ fn exhaustive_case(case: u64, out: &mut CaseOut, maxlen: usize) {
 // --------------------------- generators 2 and 3 -----------------------------
 
 fn pool_names() -> Vec<String> {
-    sv(&["alpha", "beta", "gamma", "delta", "eps", "zeta", "eta", "theta", "iota", "kappa", "lam", "mu"])
+    // names are opaque strings: blanks and letter case are significant, so " alpha" and "alpha" are two
+    // different, valid names (only emptiness, commas and duplicates are defects)
+    sv(&["alpha", " alpha", "beta", "beta ", "gamma", "Gamma", "delta", "e ps", "zeta", "eta", "theta", "iota", "kappa", "lam", "mu", " "])
 }
 
 /// a random valid program: 1..10 model parameters, functions of arity 1..10 over ordered subsets,
